@@ -11,7 +11,7 @@ import json, os, subprocess, sys, time, shutil
 from concurrent.futures import ThreadPoolExecutor
 import queue
 ROOT = os.path.dirname(os.path.dirname(os.path.abspath(__file__)))
-PAR = "/root/par"
+PAR = f"/root/par/{os.getpid()}"   # one scratch area per invocation, removed at the end
 def sh(cmd, **kw):
     return subprocess.run(cmd, shell=True, stdout=subprocess.PIPE, stderr=subprocess.STDOUT, text=True, **kw)
 def setup(k):
@@ -32,13 +32,13 @@ def teardown(k):
     sh(f"git -C /repo worktree remove --force {PAR}/r{k}")
 def main():
     args = sys.argv[1:]
-    kind = args.pop(0)
-    assert kind in ("seeded", "harmless")
+    kind = args.pop(0)   # seeded | harmless | a directory of <id>/{patch.diff, meta.json} (tools/mutate.py)
+    assert kind in ("seeded", "harmless") or os.path.isdir(kind)
     n = 6
     if args and args[0] == "-j":
         n = int(args[1]); args = args[2:]
     ids = args or sorted(d for d in os.listdir(os.path.join(ROOT, kind)) if os.path.isdir(os.path.join(ROOT, kind, d)))
-    good, bad = ("CAUGHT", "MISSED") if kind == "seeded" else ("ALARM", "QUIET")
+    good, bad = ("ALARM", "QUIET") if kind == "harmless" else ("CAUGHT", "MISSED")
     os.makedirs(PAR, exist_ok=True)
     n = min(n, len(ids))
     with ThreadPoolExecutor(n) as ex:
@@ -77,6 +77,7 @@ def main():
         allrows = [row for rows in ex.map(one, ids) for row in rows]
     for k in range(n):
         teardown(k)
+    shutil.rmtree(PAR, ignore_errors=True)
     head = ("# Seeded changes vs checks (quick tier)" if kind == "seeded" else
             "# Behaviour-preserving rewrites vs checks (quick tier): QUIET is the wanted result")
     out = [head, "", "| seeded id | check | result | first line |", "|---|---|---|---|"]
@@ -84,6 +85,10 @@ def main():
         out.append("| " + " | ".join(x.replace("|", "\\|") for x in r) + " |")
     if not args:
         open(os.path.join(ROOT, kind, "RESULTS.md"), "w").write("\n".join(out) + "\n")
+    if os.path.isabs(kind):
+        with open(os.path.join(kind, "RESULTS.tsv"), "a") as f:
+            for r in allrows:
+                f.write("\t".join(r) + "\n")
     cnt = {}
     for r in allrows:
         w = r[2].split()[-1]
